@@ -3,6 +3,7 @@ import Drivers.Proto
 import Drivers.Tables
 import Drivers.Containers
 import Drivers.Geom
+import Drivers.Search
 
 /-! `refdrv <driver> [args]` : dispatch to a line-protocol driver. One match arm per driver, on one line. -/
 
@@ -11,6 +12,7 @@ def main (args : List String) : IO UInt32 := do
   | "tables" :: rest => Drivers.Tables.run rest
   | "containers" :: rest => Drivers.Containers.run rest
   | "geom" :: rest => Drivers.Geom.run rest
+  | "search" :: rest => Drivers.Search.run rest
   | _ =>
     IO.eprintln s!"refdrv: unknown driver {args}"
     return 2
